@@ -249,7 +249,28 @@ func (e *qEnv) refQuery(sqlText, schema string) qResult {
 // qRowKeys renders rows for comparison: by column name when the names are
 // unique (column order of `SELECT *` over union_by_name is not asserted),
 // positionally otherwise.
-func qRowKeys(r qResult) []string {
+func qRowKeys(r qResult) []string { return qRowKeysMode(r, false) }
+
+// qRowKeysMode: pairs=true renders every row as the sorted multiset of its
+// (name, value) pairs even when names repeat (used when the two sides list
+// same-named columns in a different order).
+func qRowKeysMode(r qResult, pairs bool) []string {
+	if pairs {
+		keys := make([]string, len(r.Rows))
+		for i, row := range r.Rows {
+			ps := make([]string, 0, len(row))
+			for j, c := range row {
+				n := ""
+				if j < len(r.Cols) {
+					n = r.Cols[j]
+				}
+				ps = append(ps, strconv.Quote(n)+"="+strconv.Quote(c))
+			}
+			sort.Strings(ps)
+			keys[i] = strings.Join(ps, ";")
+		}
+		return keys
+	}
 	uniq := true
 	seen := map[string]bool{}
 	for _, c := range r.Cols {
@@ -299,7 +320,10 @@ func qCompare(want, got qResult, ordered bool) string {
 			return fmt.Sprintf("columns differ: want %q got %q (rows want %d got %d)", want.Cols, got.Cols, len(want.Rows), len(got.Rows))
 		}
 	}
-	wk, gk := qRowKeys(want), qRowKeys(got)
+	// same names, different order, and names repeat (SELECT * over a join):
+	// the order of union_by_name columns is not asserted
+	pairs := strings.Join(want.Cols, "\x01") != strings.Join(got.Cols, "\x01")
+	wk, gk := qRowKeysMode(want, pairs), qRowKeysMode(got, pairs)
 	if ordered {
 		if len(wk) != len(gk) {
 			return fmt.Sprintf("row count: want %d got %d", len(wk), len(gk))
@@ -419,4 +443,15 @@ func duckFind(root, rel string) []string {
 		}
 	}
 	return out
+}
+
+// qShort shortens an error message to a counter key.
+func qShort(s string) string {
+	if i := strings.IndexAny(s, "\n\""); i > 0 {
+		s = s[:i]
+	}
+	if len(s) > 60 {
+		s = s[:60]
+	}
+	return s
 }
